@@ -67,6 +67,23 @@ Section Tabs.
                       | Some rhs => implb (rnull rhs) (nt_null m) && kset_sub (rfirst rhs) (nt_first m)
                       | None => true
                       end) (seq 0 (List.length G)).
+  (** the nullable table is exact: every nonterminal it declares nullable has the empty word (by evaluation) *)
+  Fixpoint rnull_lo (fuel : nat) (r : rx) : bool :=
+    match fuel with
+    | O => false
+    | S n =>
+      match r with
+      | RNone => false
+      | REps => true
+      | RSym (DTok _) => false
+      | RSym (DNT m) => match nth_error G m with Some rhs => rnull_lo n rhs | None => false end
+      | RSeq a b => rnull_lo n a && rnull_lo n b
+      | RAlt a b => rnull_lo n a || rnull_lo n b
+      | RStar _ => true
+      end
+    end.
+  Definition tabs_null_exact (fuel : nat) : bool :=
+    forallb (fun m => implb (nt_null m) (rnull_lo fuel (RSym (DNT m)))) (seq 0 (List.length (t_null T))).
   (** nonterminals in head position *)
   Fixpoint rheads (r : rx) : list nat :=
     match r with
@@ -120,13 +137,15 @@ Definition pd_seq (a : pdres) (b : rx) : pdres :=
 Section PD.
   Variable G : grammar.
   Variable T : tabs.
-  (** with a known current token [t], nothing of [r] is possible when r is not nullable and t is not in FIRST(r) *)
-  Definition prune (c : option TokenKind) (r : rx) : bool :=
+  (** when the current token is known to lie in [ts] (or the word to be empty), nothing of [r] is possible if r is not
+      nullable and no token of [ts] is in FIRST(r) *)
+  Definition kset_disjoint (a b : list TokenKind) : bool := forallb (fun k => negb (kset_mem k b)) a.
+  Definition prune (c : option (list TokenKind)) (r : rx) : bool :=
     match c with
-    | Some t => negb (rnull T r) && negb (kset_mem t (rfirst T r))
+    | Some ts => negb (rnull T r) && kset_disjoint ts (rfirst T r)
     | None => false
     end.
-  Fixpoint pdl (fuel : nat) (L : letter) (c : option TokenKind) (r : rx) : option pdres :=
+  Fixpoint pdl (fuel : nat) (L : letter) (c : option (list TokenKind)) (r : rx) : option pdres :=
     match fuel with
     | O => None
     | S n =>
@@ -135,11 +154,13 @@ Section PD.
       | RNone => Some pd_nil
       | REps => Some {| d_der := []; d_miss := []; d_eps := true |}
       | RSym (DTok ks) =>
-          match L with
-          | LTok t => if kset_mem t ks then Some {| d_der := [REps]; d_miss := []; d_eps := false |}
-                      else Some {| d_der := []; d_miss := [r]; d_eps := false |}
-          | LNT _ => Some {| d_der := []; d_miss := [r]; d_eps := false |}
-          end
+          (* the letter itself when it is a token of ks; the other tokens of ks (that the constraint allows) are a miss *)
+          let hit := match L with LTok t => kset_mem t ks | LNT _ => false end in
+          let rest := filter (fun k => negb (match L with LTok t => tk_eqb k t | LNT _ => false end) &&
+                                       match c with Some ts => kset_mem k ts | None => true end) ks in
+          Some {| d_der := if hit then [REps] else [];
+                  d_miss := match rest with [] => [] | _ => [RSym (DTok rest)] end;
+                  d_eps := false |}
       | RSym (DNT m) =>
           if (match L with LNT m' => Nat.eqb m m' | LTok _ => false end)
           then Some {| d_der := [REps]; d_miss := []; d_eps := false |}
@@ -167,7 +188,7 @@ Section PD.
           end
       end
     end.
-  Fixpoint pd_all (fuel : nat) (L : letter) (c : option TokenKind) (rs : list rx) : option pdres :=
+  Fixpoint pd_all (fuel : nat) (L : letter) (c : option (list TokenKind)) (rs : list rx) : option pdres :=
     match rs with
     | [] => Some pd_nil
     | r :: rest => match pdl fuel L c r, pd_all fuel L c rest with
@@ -178,7 +199,9 @@ Section PD.
 End PD.
 
 (** * Abstract states *)
-Inductive cur := CUnk | CTok (t : TokenKind) | CEnd (t : TokenKind).
+(** what is known about the current token: nothing, or: either the word continues with a token of [cont], or the word is
+    finished and the follower is a token of [fin] *)
+Inductive cur := CUnk | CSet (cont fin : list TokenKind).
 Record cst := { s_cur : cur; s_r : list rx; s_env : env; s_mv : bool (* consumed since function entry *); s_lp : bool (* consumed since the start of the innermost loop iteration *) }.
 
 Definition val_eqb (a b : val) : bool :=
@@ -196,23 +219,18 @@ Fixpoint venv_eqb (a b : env) : bool :=
 Definition cur_eqb (a b : cur) : bool :=
   match a, b with
   | CUnk, CUnk => true
-  | CTok x, CTok y | CEnd x, CEnd y => tk_eqb x y
+  | CSet c1 f1, CSet c2 f2 => kinds_eqb c1 c2 && kinds_eqb f1 f2
   | _, _ => false
   end.
 Definition cst_eqb (a b : cst) : bool :=
   cur_eqb (s_cur a) (s_cur b) && rxset_sub (s_r a) (s_r b) && rxset_sub (s_r b) (s_r a) &&
   venv_eqb (s_env a) (s_env b) && Bool.eqb (s_mv a) (s_mv b) && Bool.eqb (s_lp a) (s_lp b).
-Fixpoint dedup_cst (l : list cst) : list cst :=
-  match l with
-  | [] => []
-  | x :: r => if existsb (cst_eqb x) r then dedup_cst r else x :: dedup_cst r
-  end.
+Definition dedup_cst (l : list cst) : list cst :=
+  fold_right (fun x acc => if existsb (cst_eqb x) acc then acc else x :: acc) [] l.
 Definition subset_cst (a b : list cst) : bool := forallb (fun x => existsb (cst_eqb x) b) a.
-Fixpoint dedup_vcst (l : list (val * cst)) : list (val * cst) :=
-  match l with
-  | [] => []
-  | x :: r => if existsb (fun y => val_eqb (fst x) (fst y) && cst_eqb (snd x) (snd y)) r then dedup_vcst r else x :: dedup_vcst r
-  end.
+Definition vcst_eqb (x y : val * cst) : bool := val_eqb (fst x) (fst y) && cst_eqb (snd x) (snd y).
+Definition dedup_vcst (l : list (val * cst)) : list (val * cst) :=
+  fold_right (fun x acc => if existsb (vcst_eqb x) acc then acc else x :: acc) [] l.
 
 Record couts := { k_norm : list (val * cst); k_brk : list cst; k_ret : list (val * cst) }.
 Definition couts_nil : couts := {| k_norm := []; k_brk := []; k_ret := [] |}.
@@ -230,6 +248,16 @@ Record ccert := { cc_mode : nat -> option nat;           (* grammar function -> 
                   cc_dfuel : nat;                        (* fuel of the derivative (unfolding depth) *)
                   cc_rounds : nat }.                     (* loop saturation rounds *)
 
+Fixpoint map_res {A B : Type} (f : A -> cres B) (l : list A) : cres (list B) :=
+  match l with
+  | [] => COk []
+  | x :: r => match f x, map_res f r with
+              | COk y, COk ys => COk (y :: ys)
+              | CErr m, _ => CErr m
+              | _, CErr m => CErr m
+              end
+  end.
+
 Section Comp.
   Variable G : grammar.
   Variable p : prog.
@@ -245,60 +273,57 @@ Section Comp.
   Definition with_env (s : cst) (en : env) : cst := {| s_cur := s_cur s; s_r := s_r s; s_env := en; s_mv := s_mv s; s_lp := s_lp s |}.
   Definition with_lp (s : cst) (b : bool) : cst := {| s_cur := s_cur s; s_r := s_r s; s_env := s_env s; s_mv := s_mv s; s_lp := b |}.
 
-  (** make the current token known *)
-  Fixpoint split_on (s : cst) (fs : list TokenKind) (nl : bool) (ks : list TokenKind) : cres (list cst) :=
-    match ks with
+  (** make the current token known: FIRST of the residuals, and FOLLOW(N) when the residuals are nullable *)
+  Definition known (s : cst) : cst :=
+    match s_cur s with
+    | CUnk => with_cur s (CSet (kset_dedup (rs_first (s_r s))) (if rs_null (s_r s) then F else []))
+    | CSet _ _ => s
+    end.
+  (** the part of a state with a known current token in which the token satisfies [q]; None: impossible *)
+  Definition restrict (s : cst) (q : TokenKind -> bool) : option cst :=
+    match s_cur s with
+    | CUnk => None
+    | CSet cont fin =>
+        match filter q cont, filter q fin with
+        | [], [] => None
+        | [], fin' => Some {| s_cur := CSet [] fin'; s_r := [REps]; s_env := s_env s; s_mv := s_mv s; s_lp := s_lp s |}
+        | cont', fin' => Some (with_cur s (CSet cont' fin'))
+        end
+    end.
+
+  (** eat the current token (every token of [cont]; the word is known not to be finished) *)
+  Fixpoint eat_ders (ts : list TokenKind) (rs : list rx) : cres (list rx) :=
+    match ts with
     | [] => COk []
     | t :: rest =>
-        match split_on s fs nl rest with
-        | CErr m => CErr m
-        | COk l =>
-            let inFirst := kset_mem t fs in
-            let inFol := nl && kset_mem t F in
-            if inFirst && inFol then CErr "LL(1) conflict: a token both continues the word and follows it"
-            else if inFirst then COk (with_cur s (CTok t) :: l)
-            else if inFol then COk ({| s_cur := CEnd t; s_r := [REps]; s_env := s_env s; s_mv := s_mv s; s_lp := s_lp s |} :: l)
-            else COk l
+        if tk_eqb t T_Error then CErr "eat: Error token" else
+        match pd_all G T (cc_dfuel C) (LTok t) (Some [t]) rs, eat_ders rest rs with
+        | None, _ => CErr "eat: derivative fuel"
+        | _, CErr m => CErr m
+        | Some d, COk l => match d_miss d with [] => COk (d_der d ++ l) | _ => CErr "eat: internal (miss)" end
         end
     end.
-  Definition split (s : cst) : cres (list cst) :=
-    match s_cur s with
-    | CUnk => split_on s (rs_first (s_r s)) (rs_null (s_r s)) all_token_kinds
-    | _ => COk [s]
-    end.
-  Definition cur_tok (s : cst) : option TokenKind :=
-    match s_cur s with CTok t | CEnd t => Some t | CUnk => None end.
-
-  (** eat the current token (known to continue the word) *)
   Definition eat (s : cst) : cres (val * cst) :=
     match s_cur s with
-    | CTok t =>
-        if tk_eqb t T_Error then CErr "eat: Error token" else
-        match pd_all G T (cc_dfuel C) (LTok t) (Some t) (s_r s) with
-        | None => CErr "eat: derivative fuel"
-        | Some d => match d_der d with
-                    | [] => CErr "eat: the documented rule allows no such token here"
-                    | rs => COk (VB true, {| s_cur := CUnk; s_r := dedup_rx rs; s_env := s_env s; s_mv := true; s_lp := true |})
-                    end
+    | CSet cont [] =>
+        match eat_ders cont (s_r s) with
+        | CErr m => CErr m
+        | COk [] => CErr "eat: the documented rule allows no token here"
+        | COk rs => COk (VB true, {| s_cur := CUnk; s_r := dedup_rx rs; s_env := s_env s; s_mv := true; s_lp := true |})
         end
-    | CEnd _ => CErr "eat: the follower token would be consumed"
+    | CSet _ (_ :: _) => CErr "eat: the follower token would be consumed"
     | CUnk => CErr "eat: internal (unknown current token)"
     end.
 
-  Fixpoint map_res {A B : Type} (f : A -> cres B) (l : list A) : cres (list B) :=
-    match l with
-    | [] => COk []
-    | x :: r => match f x, map_res f r with
-                | COk y, COk ys => COk (y :: ys)
-                | CErr m, _ => CErr m
-                | _, CErr m => CErr m
-                end
-    end.
-
-  Definition on_tok (s : cst) (f : TokenKind -> cst -> cres (val * cst)) : cres (list (val * cst)) :=
-    match split s with
-    | CErr m => CErr m
-    | COk l => map_res (fun st => match cur_tok st with Some t => f t st | None => CErr "internal: split" end) l
+  Definition opt_list {A : Type} (o : option A) : list A := match o with Some x => [x] | None => [] end.
+  Definition on_known (s : cst) (f : cst -> cres (list (val * cst))) : cres (list (val * cst)) := f (known s).
+  (** eat the token when it satisfies [q]; otherwise [other] *)
+  Definition eat_when (st : cst) (q : TokenKind -> bool) (other : option cst -> cres (list (val * cst))) : cres (list (val * cst)) :=
+    match (match restrict st q with Some sy => match eat sy with COk r => COk [r] | CErr m => CErr m end | None => COk [] end),
+          other (restrict st (fun t => negb (q t))) with
+    | COk a, COk b => COk (a ++ b)
+    | CErr m, _ => CErr m
+    | _, CErr m => CErr m
     end.
 
   Definition cprim (pr : prim) (s : cst) : cres (list (val * cst)) :=
@@ -306,38 +331,41 @@ Section Comp.
     | PStartNode _ | PFinishNode | PSkip => COk [(VB true, s)]
     | PCheckpoint => COk [(VN 0, s)]
     | PStartNodeAt x _ => match env_get (s_env s) x with Some (VN _) => COk [(VB true, s)] | _ => CErr "start_node_at: no checkpoint" end
-    | PAssert k => on_tok s (fun t st => if tk_eqb t k then eat st else CErr "assert would panic")
-    | PExpect k _ => on_tok s (fun t st => if tk_eqb t k then eat st else CErr "expect would record an error")
-    | PEat => on_tok s (fun t st => eat st)
-    | PEatIf k => on_tok s (fun t st => if tk_eqb t k then eat st else COk (VB false, st))
+    | PAssert k => on_known s (fun st => eat_when st (fun t => tk_eqb t k)
+                      (fun o => match o with None => COk [] | Some _ => CErr "assert would panic" end))
+    | PExpect k _ => on_known s (fun st => eat_when st (fun t => tk_eqb t k)
+                      (fun o => match o with None => COk [] | Some _ => CErr "expect would record an error" end))
+    | PEat => on_known s (fun st => match eat st with COk r => COk [r] | CErr m => CErr m end)
+    | PEatIf k => on_known s (fun st => eat_when st (fun t => tk_eqb t k)
+                      (fun o => COk (map (fun x => (VB false, x)) (opt_list o))))
     | PError _ | PErrorAndEat _ | PErrorAndRecover _ => CErr "an error-recording primitive is reachable"
-    | PAtSet ks => on_tok s (fun t st => COk (VB (existsb (tk_eqb t) ks), st))
+    | PAtSet ks => on_known s (fun st =>
+                      COk (map (fun x => (VB true, x)) (opt_list (restrict st (fun t => existsb (tk_eqb t) ks))) ++
+                           map (fun x => (VB false, x)) (opt_list (restrict st (fun t => negb (existsb (tk_eqb t) ks))))))
     end.
 
   (** call of a function certified for the nonterminal [M] *)
   Definition call_nt (M : nat) (s : cst) : cres (val * cst) :=
-    let c := match s_cur s with CTok t => Some t | _ => None end in
+    let c := match s_cur s with CSet cont _ => Some cont | CUnk => None end in
     match pd_all G T (cc_dfuel C) (LNT M) c (s_r s) with
     | None => CErr "call: derivative fuel"
     | Some d =>
         let mnull := nt_null T M in
-        let known_nonempty := match s_cur s with CTok _ => true | _ => false end in
+        let known_nonempty := match s_cur s with CSet _ [] => true | _ => false end in
+        let known_empty := match s_cur s with CSet [] _ => true | _ => false end in
         if negb mnull && (match d_miss d with [] => false | _ => true end)
         then CErr "call: part of the residual is not headed by the callee's nonterminal"
         else if negb mnull && d_eps d && negb known_nonempty
         then CErr "call: the residual may be empty but the callee's nonterminal is not nullable"
         else
           let rs := dedup_rx (d_der d ++ (if mnull then d_miss d ++ (if d_eps d then [REps] else []) else [])) in
-          let fol_ok :=
-            match s_cur s with
-            | CEnd t => kset_mem t (cc_fol C M)
-            | _ => forallb (fun r => kset_sub (rfirst T r) (cc_fol C M) && (negb (rnull T r) || kset_sub F (cc_fol C M))) rs
-            end in
+          let Fk := match s_cur s with CSet [] fin => fin | _ => F end in
+          let fol_ok := forallb (fun r => kset_sub (rfirst T r) (cc_fol C M) && (negb (rnull T r) || kset_sub Fk (cc_fol C M))) rs in
           if negb fol_ok then CErr "call: FIRST of what follows the callee (or FOLLOW of the caller) is not within the callee's FOLLOW"
           else if negb (s_mv s) && negb (Nat.ltb (cc_rank C M) (cc_rank C N)) then CErr "call: rank does not decrease (left recursion?)"
           else match rs with
                | [] => CErr "call: the documented rule allows no such nonterminal here"
-               | _ => COk (VB true, {| s_cur := match s_cur s with CEnd t => CEnd t | _ => CUnk end;
+               | _ => COk (VB true, {| s_cur := if known_empty then s_cur s else CUnk;
                                        s_r := rs; s_env := s_env s; s_mv := s_mv s || negb mnull; s_lp := s_lp s || negb mnull |})
                end
     end.
@@ -395,10 +423,44 @@ Section Comp.
         match wround exc exb I with
         | CErr m => CErr m
         | COk (res, next) =>
-            if subset_cst next I then COk (couts_dedup res) else witer exc exb k' (dedup_cst (I ++ next))
+            let next' := dedup_cst next in
+            if subset_cst next' I then COk (couts_dedup res) else witer exc exb k' (dedup_cst (I ++ next'))
         end
     end.
 
+  (** inline execution of a callee's body *)
+  Definition cback (s : cst) (arg : option (nat * bool)) (vs : val * cst) : cres (val * cst) :=
+    match arg with
+    | Some (x, true) => match env_get (s_env (snd vs)) 0 with
+                        | Some w => COk (fst vs, with_env (snd vs) (env_set (s_env s) x w))
+                        | None => CErr "call: by-reference argument lost"
+                        end
+    | _ => COk (fst vs, with_env (snd vs) (s_env s))
+    end.
+  Definition cinline (rec : expr -> cst -> cres couts) (f : nat) (arg : option (nat * bool)) (s : cst) : cres couts :=
+    match fn_body p f with
+    | None => CErr "call: no such function"
+    | Some body =>
+        match (match arg with
+               | Some (x, _) => match env_get (s_env s) x with Some v => Some [v] | None => None end
+               | None => Some []
+               end) with
+        | None => CErr "call: unset argument"
+        | Some cen0 =>
+            match rec body (with_env s cen0) with
+            | CErr m => CErr m
+            | COk o =>
+                match k_brk o with
+                | _ :: _ => CErr "break leaves a function"
+                | [] =>
+                    match map_res (cback s arg) (k_norm o ++ k_ret o) with
+                    | CErr m => CErr m
+                    | COk l => COk {| k_norm := l; k_brk := []; k_ret := [] |}
+                    end
+                end
+            end
+        end
+    end.
   Definition cdedup (r : cres couts) : cres couts := match r with COk o => COk (couts_dedup o) | CErr m => CErr m end.
   Fixpoint cexec (fuel : nat) (e : expr) (s : cst) : cres couts :=
     match fuel with
@@ -427,43 +489,12 @@ Section Comp.
       | ECall f arg =>
           match (if cc_inl C f then None else cc_mode C f), arg with
           | Some M, None =>
-              match call_nt M s with
-              | CErr m => CErr m
+              (* the summary of the certified callee when it applies, otherwise its body *)
+              match (match fn_body p f with Some _ => call_nt M s | None => CErr "call: no such function" end) with
               | COk vs => COk {| k_norm := [vs]; k_brk := []; k_ret := [] |}
+              | CErr _ => cinline (cexec n) f arg s
               end
-          | Some _, Some _ => CErr "call of a certified function with an argument"
-          | None, _ =>
-              match fn_body p f with
-              | None => CErr "call: no such function"
-              | Some body =>
-                  match (match arg with
-                         | Some (x, _) => match env_get (s_env s) x with Some v => Some [v] | None => None end
-                         | None => Some []
-                         end) with
-                  | None => CErr "call: unset argument"
-                  | Some cen0 =>
-                      match cexec n body (with_env s cen0) with
-                      | CErr m => CErr m
-                      | COk o =>
-                          match k_brk o with
-                          | _ :: _ => CErr "break leaves a function"
-                          | [] =>
-                              let back (vs : val * cst) : cres (val * cst) :=
-                                match arg with
-                                | Some (x, true) => match env_get (s_env (snd vs)) 0 with
-                                                    | Some w => COk (fst vs, with_env (snd vs) (env_set (s_env s) x w))
-                                                    | None => CErr "call: by-reference argument lost"
-                                                    end
-                                | _ => COk (fst vs, with_env (snd vs) (s_env s))
-                                end in
-                              match map_res back (k_norm o ++ k_ret o) with
-                              | CErr m => CErr m
-                              | COk l => COk {| k_norm := dedup_vcst l; k_brk := []; k_ret := [] |}
-                              end
-                          end
-                      end
-                  end
-              end
+          | _, _ => cinline (cexec n) f arg s
           end
       | ESeq a b =>
           match cexec n a s with
@@ -500,7 +531,7 @@ Section Comp.
   Definition is_eps (r : rx) : bool := rx_eqb r REps.
   Definition exit_ok (vs : val * cst) : bool :=
     (match fst vs with VB true => true | _ => false end) &&
-    (match s_cur (snd vs) with CEnd _ => true | _ => forallb is_eps (s_r (snd vs)) end).
+    (match s_cur (snd vs) with CSet [] _ => true | _ => forallb is_eps (s_r (snd vs)) end).
   Definition init_cst (rhs : rx) : cst := {| s_cur := CUnk; s_r := [rhs]; s_env := []; s_mv := false; s_lp := false |}.
 End Comp.
 
@@ -524,7 +555,7 @@ Definition check_cfn (G : grammar) (p : prog) (C : ccert) (fuel : nat) (f : nat)
   end.
 Definition cres_ok {A : Type} (r : cres A) : bool := match r with COk _ => true | CErr _ => false end.
 Definition check_complete (G : grammar) (p : prog) (C : ccert) (fuel : nat) : bool :=
-  tabs_closed G (cc_tabs C) && forallb (fun f => cres_ok (check_cfn G p C fuel f)) (seq 0 (List.length (fns p))).
+  tabs_closed G (cc_tabs C) && tabs_null_exact G (cc_tabs C) (cc_dfuel C) && forallb (fun f => cres_ok (check_cfn G p C fuel f)) (seq 0 (List.length (fns p))).
 
 (** the grammar in which the rules of the nonterminals [bl] are emptied (no words) *)
 Definition blank (bl : list nat) (G : grammar) : grammar :=
